@@ -502,7 +502,9 @@ Proof.
   - unfold r_wait in H. open_rule H; nupd HN; nfin HI HN; nfin2 HI HN; nfin3 HI HN.
   - unfold r_wait_ctx in H. open_rule H; nupd HN; nfin HI HN; nfin2 HI HN; nfin3 HI HN.
   - unfold r_unreg in H. open_rule H; nupd HN; nfin HI HN; nfin2 HI HN; nfin3 HI HN.
-  - unfold r_loop_read in H. open_rule H; nupd HN; nfin HI HN; nfin2 HI HN; nfin3 HI HN.
+  - unfold r_loop_read, closed_err in H. open_rule H;
+      try match goal with |- context [if sctx_done ?k then _ else _] => destruct (sctx_done k) eqn:Esd end;
+      nupd HN; nfin HI HN; nfin2 HI HN; nfin3 HI HN.
     (* the first envelope's header metadata does not decode: the latch carries that error *)
     match goal with Hb : match s_latch c0 with _ => _ end = true |- _ => destruct (bad_of_cond _ _ Hb) as [Hla Hbad] end.
     rewrite Hla in Hvv. inversion Hvv; subst. right. unfold jlatch, jerr; csimpl.
@@ -561,4 +563,20 @@ Proof.
   - intros v Hin. apply (ni_ev _ HN _ Hin); auto.
   - intros t Hin. apply (ni_ev _ HN _ Hin).
   - intros x [Hin|[Hin|Hin]]; apply (ni_ev _ HN _ Hin); auto.
+Qed.
+
+(* C09_eof_not_success: the model is parametric in the VALUE of the transport's read error (AFailRead carries none:
+   the recorded error is the token EConn, whatever Read failed with - io.EOF included; that the real code is just as
+   indifferent is checked on every run for eight error values, TestC09Errors). In every run RecvMsg reports the clean
+   end of the stream (io.EOF) only if an envelope the call took carries a trailer with an OK status (or no status);
+   Header never reports it for another reason either. *)
+Lemma C09_eof_not_success_l ls s : lrun init ls = Some s ->
+  forall c k, nth_error (calls s) c = Some k ->
+    (In (EvRecvRet c (RErr EEof)) (log s) -> exists e, In e (taken c (log s)) /\ final_of e = Some EEof) /\
+    (In (EvHeaderRet c (inr EEof)) (log s) -> exists e, In e (taken c (log s)) /\ final_of e = Some EEof).
+Proof.
+  intros H c k Hn. destruct (C05_noninterference_l _ _ H _ _ Hn) as (_ & _ & _ & HR & HH & _).
+  split; intros Hin.
+  - destruct (HR _ Hin) as (e & He & [Hf|[Hx _]]); [eauto|discriminate].
+  - destruct (HH _ Hin) as (e & He & [Hf|[Hx _]]); [eauto|discriminate].
 Qed.
